@@ -127,7 +127,11 @@ def validate(ctx, files, jobs):
     for p in files:
         by_mod.setdefault(_module_for(p), []).append(p)
     for mod, ps in by_mod.items():
-        res = lib.validate_parallel(mod, ps, jobs=jobs, timeout=2400, heap="3g")
+        def one(p, mod=mod):
+            ok, r, at = lib.validate_trace(mod, p, timeout=2400, heap="3g", env={"JAVA_TOOL_OPTIONS": "-Xss32m"})
+            return (p, ok, r, at)
+        with cf.ThreadPoolExecutor(max(1, jobs)) as ex:
+            res = list(ex.map(one, ps))
         for (p, ok, r, at) in res:
             recs = lib.read_ndjson(p)
             ctx.evaluations += len(recs)
@@ -194,6 +198,8 @@ def run(ctx):
     # 1. model checks of the specifications (in the background while the driver is built and run)
     def model_checks():
         res = []
+        if os.environ.get("C11_SKIP_MC"):
+            return res
         for sel, depth in passes:
             res.append(("MC_VecAbstract", "%s alphabet, histories <= %d" % (sel, depth),
                         lib.tlc("MC_VecAbstract", cfg=cfg, workers=workers, timeout=2400, heap="6g",
@@ -207,12 +213,16 @@ def run(ctx):
     mc_future = pool.submit(model_checks)
 
     # 2. record
-    exe = lib.build_driver("c11_arrays", san=True, extra=["-fwrapv"])
+    # (C11_DRIVER / C11_SKIP_MC: used only by the local mutation trials described in notes/C11.md)
+    exe = os.environ.get("C11_DRIVER") or lib.build_driver("c11_arrays", san=True, extra=["-fwrapv"])
     futs = {}
     for ty in TYPES1:
         for sel, depth in passes:
             futs[("bfs", ty + "-" + sel)] = pool.submit(bfs_replay, ctx, exe, ty, sel, alphas[sel], depth, K, env)
         futs[("rand", ty)] = pool.submit(rand_traces, ctx, exe, "rand", ty, 40 if q else 400, 400 if q else 1000, env)
+    # multi-dimensional arrays: (dimension, sequences, length)
+    for d, n, ln in ([(2, 6, 100), (3, 6, 100)] if q else [(2, 60, 300), (3, 60, 250), (4, 30, 150)]):
+        futs[("nd", str(d))] = pool.submit(rand_traces, ctx, exe, "nd", str(d), n, ln, env)
     files = []
     aborts = 0
     for key, f in futs.items():
@@ -226,7 +236,8 @@ def run(ctx):
     chunks = []
     for p in files:
         boundary = "Pre" if os.path.basename(p).startswith("bfs") else "Config"
-        chunks += [c[0] for c in lib.split_trace(p, os.path.join(ctx.work, "chunks"), maxlines=40000, boundary=boundary)]
+        nd = os.path.basename(p).startswith("nd")
+        chunks += [c[0] for c in lib.split_trace(p, os.path.join(ctx.work, "chunks"), maxlines=600 if nd else 15000, boundary=boundary)]
     validate(ctx, chunks, 4 if q else 8)
     lib.log('C11: validated %d chunks, %.0fs' % (len(chunks), time.time() - ctx.t0))
     for mod, cfg, r in mc_future.result():
